@@ -221,13 +221,16 @@ PROPS["C08"] = {
     "technique": ("two-run non-interference testing: property-based generation of (operation, public input, secret pair); the "
                   "instrumented build records every basic block, short-circuit operand, non-constant index/slice bound and "
                   "variable-time compare position and the traces of the two secrets must be identical; exhaustive guard-page "
-                  "placement for the assembly table lookups; callgrind instruction counts of the assembly leaves across generated secrets"),
+                  "placement for the assembly table lookups; ordered load sequences of all constant-time table lookups under valgrind/lackey, "
+                  "enumerated over all 17 digits; callgrind instruction counts of the assembly leaves across generated secrets"),
     "level_text": ("Generated-input search over pairs of secrets (adversarial pairs: 0 vs dense, radix-16 digits all -8 vs all 7, "
                    "single-bit and top/low-byte differences, uniform; structured pairs for secret keys: scalars at the edge of the canonical range, "
                    "two keys that agree in the scalar only / the nonce only / entirely / nowhere) for every operation that is documented constant time, on an "
                    "instrumented copy of the current tree: equal traces are required, the first diverging probe (file:line) is "
                    "reported. Decides source-level control flow and memory indices of Go code in all three Go backends; the assembly "
-                   "lookups are decided by an exhaustive (routine, split, mirror, digit) guard-page enumeration of their memory access set, "
+                   "lookups are decided by an exhaustive (routine, split, mirror, digit) guard-page enumeration of their memory access set and, "
+                   "for all three lookup table types in the assembly and the portable build, by equality of the ordered (offset, size) load "
+                   "sequence into the table over all 17 digits under valgrind's memory tracer, "
                    "and all assembly leaves by equality of callgrind self instruction counts across generated secrets. Does not see "
                    "below the instruction level. Cannot prove absence over all pairs."),
     "level_note": ("Trusted: the instrumenter (tools/ctinstr: textual probe insertion, validated by running the repo's own test suite on "
